@@ -377,6 +377,19 @@ def _insert_sites(f, inserts):
         if isinstance(a, ast.Name):
             defs = [d for d in walk_no_nested(f.node) if isinstance(d, ast.Assign) and len(d.targets) == 1 and isinstance(d.targets[0], ast.Name)
                     and d.targets[0].id == a.id]
+            # the definition of the same block, when there is one (each direction sets and uses its own)
+            st = stmt_of(c)
+            blk = getattr(st, "_parent", None)
+            local = None
+            for fld in ("body", "orelse", "finalbody"):
+                lst = getattr(blk, fld, None)
+                if isinstance(lst, list) and st in lst:
+                    before = [d for d in lst[:lst.index(st)] if d in defs]
+                    if before:
+                        local = before[-1]
+            if local is not None:
+                sites.append((local.value, None, c))  # judged at the call: the definition sits on the same path
+                continue
             if defs:
                 sites.extend((d.value, d, c) for d in defs)
                 continue
@@ -396,8 +409,24 @@ def _o3_remove_insert(ctx, R, f, cfg, lp, dirp, ev, inserts, removes):
         raise AnalysisError("O3", "insert index shape not recognised")
     inits = [a for a in walk_no_nested(f.node) if isinstance(a, ast.Assign) and any(isinstance(t, ast.Name) and t.id == idx for t in a.targets)]
     incs = [a for a in walk_no_nested(lp) if isinstance(a, ast.AugAssign) and isinstance(a.target, ast.Name) and a.target.id == idx]
-    counts = (len(inits) == 1 and const_value(ctx.program, f, inits[0].value) == 0 and len(incs) == 1 and isinstance(incs[0].op, ast.Add)
-              and const_value(ctx.program, f, incs[0].value) == 1 and incs[0] is lp.body[-1]) or enumerate_form
+    def once_per_iteration():
+        # every way from the start of an iteration back to the loop head passes exactly one `idx += 1`
+        heads = [n for n in cfg.nodes_for(lp) if n.kind == "loop"]
+        if not heads or not incs:
+            return False
+        head = heads[0]
+        entry = [m for m, _ in head.succ if m.kind == "fact" and m.info == "for-next"]
+        inc_nodes = [x for a in incs for x in cfg.nodes_for(a)]
+        if head in cfg.reach(entry, avoid=inc_nodes, exc=False):
+            return False  # an iteration can end without counting
+        for x in inc_nodes:
+            after = [m for m, lab in x.succ if lab != "exc"]
+            if any(y in cfg.reach(after, avoid=[head], exc=False) for y in inc_nodes):
+                return False  # counted twice
+        return True
+    counts = (len(inits) == 1 and const_value(ctx.program, f, inits[0].value) == 0 and bool(incs)
+              and all(isinstance(a.op, ast.Add) and const_value(ctx.program, f, a.value) == 1 for a in incs)
+              and (incs[0] is lp.body[-1] and len(incs) == 1 or once_per_iteration())) or enumerate_form
     if counts:
         ctx.holds("O3", "%s counts the index of the current entry" % idx)
     else:
